@@ -15,7 +15,6 @@ use super::c08::{ParamSpec, PRESET_NAMES};
 use super::universe_summary;
 use crate::explore::Fallback;
 use crate::framework::{par_for_each, Ctx};
-use rayon::prelude::*;
 use crate::multi::{check_real, judge_loom, loom_available, loom_case, report_loom, run_loom, sequential, Config, LoomBounds, LoomTotals};
 use crate::refcfr::{RefMethod, RefParams};
 use crate::runner::align;
@@ -128,50 +127,52 @@ fn layer_decomposition(ctx: &Ctx, totals: &mut LoomTotals) {
     let specs = specs(ctx);
     ctx.set("layer1_decomposition", json!({"games": games.len(), "budgets": budgets, "task_targets": "1..=12", "presets": specs.iter().map(|s| s.to_json()).collect::<Vec<_>>(), "thresholds": "0, and (on every 7th game and the families) up to two values strictly between consecutive bounds of the 4-iteration run"}));
     let lb = LoomBounds { pb3: None, pb4: None, max_permutations: 1, max_seconds: 60 };
-    let cases: Vec<Value> = games
-        .par_iter()
-        .enumerate()
-        .flat_map_iter(|(gi, (_, tree))| {
-            let mut out = Vec::new();
-            let game = match build(tree) {
-                Ok(g) => g,
-                Err(_) => return out,
-            };
-            let al = match align(tree, &game) {
-                Ok(al) => al,
-                Err(_) => return out,
-            };
-            let big = tree.num_internal() > 40;
-            for spec in &specs {
-                for &iters in budgets {
-                    if big && iters > 4 {
-                        continue;
-                    }
-                    let mut regs = vec![0.0];
-                    if iters == 4 && (gi % 7 == 0 || tree.num_internal() > 4) {
-                        regs.extend(thresholds(tree, &game, &al, *spec, iters));
-                    }
-                    for max_reg in regs {
-                        let cfg = Config { method: RefMethod::Full, spec: *spec, iters, max_reg, script: BTreeMap::new(), fallback: Fallback::First };
-                        match sequential(tree, &game, &al, &cfg) {
-                            Ok(seq) => out.push(loom_case(0, tree, &cfg, &seq, 2, &targets, false, &lb)),
-                            Err(msg) => ctx.violation("one-thread-run-failed", &format!("{} {}", msg, cfg.describe(tree)), cfg.to_json(tree)),
-                        }
+    let shared = std::sync::Mutex::new(LoomTotals::default());
+    par_for_each(&games, 16, |gi, (_, tree)| {
+        if ctx.stopped() {
+            return;
+        }
+        let mut out = Vec::new();
+        let game = match build(tree) {
+            Ok(g) => g,
+            Err(_) => return,
+        };
+        let al = match align(tree, &game) {
+            Ok(al) => al,
+            Err(_) => return,
+        };
+        let big = tree.num_internal() > 40;
+        for spec in &specs {
+            for &iters in budgets {
+                if big && iters > 4 {
+                    continue;
+                }
+                let mut regs = vec![0.0];
+                if iters == 4 && (gi % 7 == 0 || tree.num_internal() > 4) {
+                    regs.extend(thresholds(tree, &game, &al, *spec, iters));
+                }
+                for max_reg in regs {
+                    let cfg = Config { method: RefMethod::Full, spec: *spec, iters, max_reg, script: BTreeMap::new(), fallback: Fallback::First };
+                    match sequential(tree, &game, &al, &cfg) {
+                        Ok(seq) => out.push(loom_case(0, tree, &cfg, &seq, 2, &targets, false, &lb)),
+                        Err(msg) => ctx.violation("one-thread-run-failed", &format!("{} {}", msg, cfg.describe(tree)), cfg.to_json(tree)),
                     }
                 }
             }
-            out
-        })
-        .collect();
-    let results = run_loom(&cases, 16);
-    let mut sampled = 0;
-    for (ci, (case, res)) in cases.iter().zip(results.iter()).enumerate() {
-        judge_loom(ctx, case, res, totals);
-        if sampled < 3 && ci % 4001 == 17 {
-            sampled += 1;
-            ctx.sample("layer 1a: decomposition case (12 task targets each)", json!({"tree": Tree::from_replay(&case["tree"]).show(), "preset": case["spec"], "iters": case["iters"], "max_reg": case["max_reg"], "targets": case["targets"]}));
         }
-    }
+        let results = run_loom(&out, 1);
+        let mut local = LoomTotals::default();
+        for (case, res) in out.iter().zip(results.iter()) {
+            judge_loom(ctx, case, res, &mut local);
+        }
+        if gi % 1801 == 7 {
+            if let Some(case) = out.last() {
+                ctx.sample("layer 1a: decomposition case (12 task targets each)", json!({"tree": tree.show(), "preset": case["spec"], "iters": case["iters"], "max_reg": case["max_reg"], "targets": case["targets"]}));
+            }
+        }
+        shared.lock().unwrap().merge(&local);
+    });
+    totals.merge(&shared.into_inner().unwrap());
 }
 
 /// Layer 1b: the real pool through the public entry point (task target 3 x threads) on the games
@@ -291,19 +292,28 @@ fn layer_two(ctx: &Ctx, totals: &mut LoomTotals) {
 }
 
 pub fn run(ctx: &Ctx) -> i32 {
+    let t0 = std::time::Instant::now();
+    let mut walls = serde_json::Map::new();
     let _ = PRESET_NAMES;
     layer_real_pool(ctx);
+    walls.insert("real_pool".into(), json!(t0.elapsed().as_secs_f64()));
     if loom_available() {
         let mut dec = LoomTotals::default();
+        let t1 = std::time::Instant::now();
         layer_decomposition(ctx, &mut dec);
+        walls.insert("decomposition".into(), json!(t1.elapsed().as_secs_f64()));
+        let t2 = std::time::Instant::now();
         ctx.set("layer1_decomposition_result", json!({"cases_(game,preset,budget,threshold,target)": dec.cases, "with_a_split_frontier": dec.cases_with_concurrency, "largest_frontier": dec.max_tasks}));
         let mut totals = LoomTotals::default();
         layer_two(ctx, &mut totals);
         report_loom(ctx, &totals);
+        walls.insert("schedules".into(), json!(t2.elapsed().as_secs_f64()));
     } else {
         ctx.set("loom", json!("NOT RUN: the loom worker is not built (/verif/target/loom/release/vloom missing or VERIF_NO_LOOM set); decompositions and schedules were not explored in this run"));
         println!("NOTE: loom layers skipped (worker not built)");
     }
+    println!("  wall seconds by layer: {}", Value::Object(walls.clone()));
+    ctx.set("wall_s_by_layer", Value::Object(walls));
     ctx.assume("layer 1 uses the real rayon pool: exhaustive over games, presets, budgets and task targets, but each run sees whatever schedule the pool produced");
     ctx.assume("layer 2 (loom): one loom thread per task of the frontier; <= 2 concurrent tasks explored without a bound, 3 / 4 tasks with the stated preemption bounds; rayon's own internals, weak-memory effects on values and par_iter_mut over exclusive items are not explored");
     ctx.assume("a multi-threaded run that differs from one thread while the executable specification reports a tie / near-zero regret sum under the same configuration is counted as ill conditioned, not judged");
